@@ -95,7 +95,7 @@ def k3(ctx, kr):
 
 # ---------------------------------------------------------------------------------------------- K4 direct addresses: AddressAssignment::try_from never panics
 def _k4_job(job):
-    n, = job
+    n, dots = job            # dots: 'any' = every tail character is a digit or a dot; 'first' = one dot after the first digit, digits elsewhere; 'none' = digits only
     ctx = _CTX; part = Part()
     P = ctx.program()
     key = P.impl_all.get(('AddressAssignment', 'TryFrom<str>', 'try_from')) or P.impl_all.get(('AddressAssignment', 'TryFrom<&str>', 'try_from'))
@@ -106,7 +106,9 @@ def _k4_job(job):
         size = M.fresh_bv('size', 8); M.assume(z3.Or([size == ord(c) for c in 'XBWDLxbwdl'] + [z3.And(z3.UGE(size, 48), z3.ULE(size, 57))]))
         tail = []
         for i in range(n):
-            b = M.fresh_bv('t%d' % i, 8); M.assume(z3.Or(z3.And(z3.UGE(b, 48), z3.ULE(b, 57)), b == 46)); tail.append(b)
+            if dots == 'first' and i == 1: tail.append(46); continue
+            b = M.fresh_bv('t%d' % i, 8)
+            M.assume(z3.Or(z3.And(z3.UGE(b, 48), z3.ULE(b, 57)), b == 46) if dots == 'any' else z3.And(z3.UGE(b, 48), z3.ULE(b, 57))); tail.append(b)
         st['bytes'] = [37, loc, size] + tail
         return M.call_fn(key[0], [Ref(Cell(Str(list(st['bytes']))))])
     def on_path(M, pr):
@@ -144,10 +146,11 @@ def _replay_direct_address(text):
 def k4(ctx, kr):
     global _CTX
     _CTX = ctx
-    ns = [1, 3, 5] if ctx.tier == 'quick' else [1, 2, 3, 4, 5, 6, 7]
-    ns = ns + [11, 12]            # long enough for a component that does not fit u32 (10 digits)
-    kr.bounds = 'texts %%<I|Q|M><X|B|W|D|L|digit><tail>, any letter case, tail of %s symbolic characters over digits and "."; regex::Regex by contract with the patterns read from the MIR' % ns
-    for part in par_map(_k4_job, [(n,) for n in sorted(ns, reverse=True)]): merge_part(kr, part)
+    ns = [1, 2, 3, 4] if ctx.tier == 'quick' else [1, 2, 3, 4, 5, 6]
+    jobs = [(n, 'any') for n in ns] + [(n, d) for n in (10, 11, 12) for d in ('none', 'first')]      # long enough for a component that does not fit u32 (10 digits)
+    kr.bounds = ('texts %%<I|Q|M><X|B|W|D|L|digit><tail>, any letter case: tails of %s symbolic characters over digits and ".", and tails of 10..12 symbolic digits (all digits, or one dot after the first digit: components around the range of u32); '
+                 'regex::Regex by contract with the patterns read from the MIR' % ns)
+    for part in par_map(_k4_job, sorted(jobs, reverse=True)): merge_part(kr, part)
     P = ctx.program()
     kr.functions = fn_paths(P, getattr(kr, '_enc', set()))
     kr.assumptions = ['regex::Regex::{new,captures} and Captures indexing by contract (leftmost-first backtracking matcher over ASCII subjects; indexing a group that did not participate panics)', 'lazy_static Lazy::get = evaluate the initialiser']
